@@ -141,6 +141,14 @@ func cmdCheck(args []string) int {
 		}
 		hdir := filepath.Join(verifRoot, job.Harness)
 		cfg := runConfig{Pkg: job.Pkg, HarnessDir: hdir, TimeoutMs: tmo, Seed: seed, Solver: primarySolver()}
+		if *budget == 0 {
+			// default wall budget per harness: exploration that does not finish is reported as
+			// inconclusive (reduced bound), never as success; violations found so far still count
+			*budget = 240
+			if *tier == "thorough" {
+				*budget = 2400
+			}
+		}
 		b := time.Duration(*budget) * time.Second
 		nw := *workers
 		if job.MaxWorkers > 0 && job.MaxWorkers < nw {
@@ -604,6 +612,8 @@ func vSameSlice(a, b []byte) bool {
 }
 func vEventCount(sub string) int { fmt.Println("REPLAY-UNSUPPORTED vEventCount"); panic(vStop{}) }
 func vPrint(x any)               { fmt.Println("vPrint:", x) }
+func vSchedule()                 {}
+func vCtxTimeout(ctx interface{ Done() <-chan struct{} }) (int64, bool) { fmt.Println("REPLAY-UNSUPPORTED vCtxTimeout"); panic(vStop{}) }
 `
 
 const nativeTest = `//go:build verif
